@@ -129,7 +129,7 @@ func verifHarnessC19HandleStamps() {
 	assert("lock-released", notHeld(&s.active))
 	cs := s.active.m[name]
 	assert("still-known", cs != nil)
-	assert("own-value", and(sameBacking(v, cs.Secret.Value), bytesEq(v, pre[name].Secret.Value)))
+	assert("own-value", and(bytesEq(v, cs.Secret.Value), bytesEq(v, pre[name].Secret.Value)))
 	assert("stamped-now", cs.LastAccess == verifNowSec)
 	assert("others-untouched", mapAll(s.active.m, func(n string, c *cachedSecret) bool {
 		return or(n == name, deepEq(c, pre[n]))
